@@ -11,3 +11,6 @@ func TakeReports() []string                    { return nil }
 func GoroutineBalance(t *rt.Thread) (int, int) { return 0, 0 }
 func PointCounts() map[string]int64            { return nil }
 func OpCounts() map[string]uint64              { return nil }
+
+func DeadThreadsWithGoroutine(maxPolls int) (int, int64, int64) { return 0, 0, 0 }
+func ForgetThreads()                                           {}
